@@ -1,7 +1,18 @@
 #!/venv/bin/python
-"""Prints the markdown tables of DESIGN.md §8 from seeded/MATRIX.json, seeded/*/meta.json, known_findings.json, seeded/FIXCHECK.json."""
+"""Prints the markdown tables of DESIGN.md §8 from seeded/MATRIX.json, seeded/*/meta.json, known_findings.json,
+seeded/FIXCHECK.json; with --write substitutes them between the <!-- X_BEGIN --> / <!-- X_END --> markers of DESIGN.md."""
+import io
 import json
 import os
+import sys
+
+_out = io.StringIO()
+_print = print
+
+
+def print(*a, **k):          # noqa: A001 - collect the output so that --write can split it
+    _print(*a, **k, file=_out)
+
 
 HERE = os.path.dirname(os.path.dirname(os.path.abspath(__file__)))
 m = json.load(open(os.path.join(HERE, 'seeded', 'MATRIX.json')))
@@ -29,3 +40,17 @@ print('|---|---|---|---|')
 for e in k:
     if e['status'] == 'open':
         print(f"| {e.get('id')} | {e['property']} | {e['what']} | see `where`: {e['where']} |")
+
+text = _out.getvalue()
+if '--write' in sys.argv:
+    seed, fixed, openf = [b.strip() for b in text.strip().split('\n\n')]
+    p = os.path.join(HERE, 'DESIGN.md')
+    s = open(p).read()
+    for name, block in (('SEED_TABLE', seed), ('FIXED_TABLE', fixed), ('OPEN_TABLE', openf)):
+        a, b = f'<!-- {name}_BEGIN -->', f'<!-- {name}_END -->'
+        i, j = s.index(a) + len(a), s.index(b)
+        s = s[:i] + '\n' + block + '\n' + s[j:]
+    open(p, 'w').write(s)
+    _print('DESIGN.md tables rewritten')
+else:
+    _print(text)
